@@ -192,6 +192,31 @@ def _truthy(t):
     return t
 
 
+def _max_v(t):
+    if not isinstance(t, tuple) or not t:
+        return -1
+    if t[0] == 'v' and len(t) == 2 and isinstance(t[1], int):
+        return t[1]
+    m = -1
+    for x in t:
+        if isinstance(x, tuple):
+            k = _max_v(x)
+            if k > m:
+                m = k
+    return m
+
+
+def _fresh(bound):
+    """next bound-variable level: one above every binder variable visible in the environment (independent of
+    how many other names - e.g. parameters of an inlined helper - the environment holds)."""
+    m = -1
+    for v in bound.values():
+        k = _max_v(v)
+        if k > m:
+            m = k
+    return ('v', m + 1)
+
+
 def is_formula(t) -> bool:
     return t[0] in ('and', 'or', 'not', 'bf') or t in (TRUE, FALSE)
 
@@ -391,7 +416,7 @@ class Extractor:
             gens = []
             for gen in e.generators:
                 coll = self.expr(gen.iter, p, b2)
-                v = ('v', len(b2))
+                v = _fresh(b2)
                 self.bind(gen.target, v, b2)
                 cond = mk_and(*[self.truth(self.expr(c, p, b2)) for c in gen.ifs])
                 gens.append((canon(coll), canon(cond)))
@@ -486,7 +511,7 @@ class Extractor:
             lam = e.args[0]
             coll = self.expr(e.args[1], p, bound)
             b2 = dict(bound)
-            v = ('v', len(b2))
+            v = _fresh(b2)
             b2[lam.args.args[0].arg] = v
             cond = self.truth(self.expr(lam.body, p, b2))
             return ('filtermap', ((canon(coll), canon(cond)),), v)
@@ -513,7 +538,7 @@ class Extractor:
                 gen = g.generators[0]
                 if isinstance(gen.target, ast.Name) and isinstance(g.elt, ast.Name) and g.elt.id == gen.target.id:
                     coll = self.expr(gen.iter, p, bound)
-                    v = ('v', len(bound))
+                    v = _fresh(bound)
                     b2 = dict(bound)
                     b2[gen.target.id] = v
                     cond = mk_and(*[self.truth(self.expr(c, p, b2)) for c in gen.ifs])
@@ -524,7 +549,7 @@ class Extractor:
                     raise Unsupported('nested generator in any/all')
                 gen = g.generators[0]
                 coll = self.expr(gen.iter, p, bound)
-                v = ('v', len(bound))
+                v = _fresh(bound)
                 b2 = dict(bound)
                 self.bind(gen.target, v, b2)
                 body = self.truth(self.expr(g.elt, p, b2))
@@ -585,7 +610,7 @@ class Extractor:
         gens = []
         for gen in e.generators:
             coll = self.expr(gen.iter, p, b2)
-            v = ('v', len(b2))
+            v = _fresh(b2)
             self.bind(gen.target, v, b2)
             cond = mk_and(*[self.truth(self.expr(c, p, b2)) for c in gen.ifs])
             gens.append((coll, canon(cond)))
@@ -690,7 +715,7 @@ class Extractor:
         op = body.value.op
         coll = self.expr(loop.iter, p, bound)
         b2 = dict(bound)
-        var = ('v', len(b2))
+        var = _fresh(b2)
         self.bind(loop.target, var, b2)
         rest = [self.truth(self.expr(x, p, b2)) for x in body.value.values[1:]]
         if isinstance(op, ast.Or):
@@ -978,11 +1003,11 @@ class Extractor:
                 paths = new
             return paths
         b2 = dict(bound)
-        var = ('v', len(b2))
+        var = _fresh(b2)
         self.bind(st.target, var, b2)
         body = [s for s in st.body if not self.ignorable(s)]
         pre_guard = None
-        if coll[0] == 'filtermap' and len(coll[1]) == 1 and coll[2] == ('v', len(bound)):
+        if coll[0] == 'filtermap' and len(coll[1]) == 1 and coll[2] == _fresh(bound):
             # for x in [y for y in C if c(y)]: body   ==   for x in C: if c(x): body
             # (the comprehension variable and the loop variable get the same de Bruijn level)
             pre_guard = coll[1][0][1]
